@@ -15,6 +15,9 @@ CONSTANTS
   ObsLast = FALSE
   Rand = TRUE
   Letters = {0, 1, 2}
+  LastOps = {}
+  LastSz = {}
+  Dom = "all"
   Ops = {"alloc", "dup", "splice", "split", "copy", "merge", "append", "insert", "delete", "truncate", "resize", "prepend", "wmap", "poke", "free", "size", "read", "rd1", "peek", "extract", "iovec", "slin", "scan", "find", "compare", "equal", "match"}
 INVARIANT Emit
 CONSTRAINT Bounded
